@@ -3,6 +3,8 @@ package main
 import (
 	"fmt"
 	"os"
+	"strings"
+	"verif/internal/e1"
 
 	"verif/checks"
 	"verif/internal/ev"
@@ -33,6 +35,21 @@ func main() {
 		os.Exit(2)
 	}
 	ctx.R = ev.New(id, ctx.Tier, c.Level)
+	// a panic inside lungo during a step of a sequence search is a violation of the property under test (a call must
+	// return a result or an error), not the end of the check
+	e1.OnPanic = func(calls []string, p interface{}, stack string) {
+		last := "?"
+		if len(calls) > 0 {
+			last = calls[len(calls)-1]
+			if i := strings.IndexAny(last, "({"); i > 0 {
+				last = last[:i]
+			}
+		}
+		if len(stack) > 3000 {
+			stack = stack[:3000]
+		}
+		ctx.R.Violation("panic:"+last, fmt.Sprintf("panic %v after %s\n%s", p, strings.Join(calls, " ; "), stack), map[string]interface{}{"calls": calls})
+	}
 	c.Run(ctx)
 	ctx.R.Finish()
 }
